@@ -67,6 +67,19 @@ ByType ==
     Nested |-> {St(<< <<"inner", p>>, <<"list", Seq_(l)>>, <<"tag", t>> >>) : p \in {x \in Plains : x.struct[1][2].int = "0"}, l \in {<<>>, <<Plain("9223372036854775807", <<104>>, NoneV, <<>>)>>}, t \in Shapes},
     Shape |-> Shapes,
     VecShape |-> {Seq_(<<>>)} \cup {Seq_(<<a, b>>) : a \in {Var("Unit", "unit", UnitV), Var("Newtype", "newtype", I("4294967296"))}, b \in {Var("Tuple", "tuple", Seq_(<<I("0"), S(<<>>)>>)), Var("Unit", "unit", UnitV)}},
+    \* options around values whose serialised form is empty (empty list, empty string, empty map) or atom-like (unit variant)
+    OptVecI64 |-> {NoneV, Some(Seq_(<<>>)), Some(Seq_(<<I("0")>>)), Some(Seq_(<<I("4294967296"), I("-1")>>))},
+    OptVecStr |-> {NoneV, Some(Seq_(<<>>)), Some(Seq_(<<S(<<>>)>>)), Some(Seq_(<<S(<<110, 105, 108>>)>>))},
+    OptVecU8 |-> {NoneV, Some(Seq_(<<>>)), Some(Seq_(<<I("0")>>)), Some(Seq_(<<I("110"), I("105"), I("108")>>))},
+    OptMapStrI64 |-> {NoneV, Some(Map_(<<>>)), Some(Map_(<< <<S(<<107>>), I("0")>> >>))},
+    OptShape |-> {NoneV} \cup {Some(x) : x \in Shapes},
+    OptTupI64Str |-> {NoneV, Some(Seq_(<<I("0"), S(<<>>)>>)), Some(Seq_(<<I("-9223372036854775808"), S(<<110, 105, 108>>)>>))},
+    VecOptVecI64 |-> {Seq_(<<Some(Seq_(<<>>))>>), Seq_(<<NoneV, Some(Seq_(<<>>)), Some(Seq_(<<I("1")>>)), NoneV>>)},
+    MapStrOptVecI64 |-> {Map_(<< <<S(<<97>>), Some(Seq_(<<>>))>>, <<S(<<98>>), NoneV>>, <<S(<<99>>), Some(Seq_(<<I("1")>>))>> >>)},
+    TupOptVecOptStr |-> {Seq_(<<a, b>>) : a \in {NoneV, Some(Seq_(<<>>)), Some(Seq_(<<I("1")>>))}, b \in {NoneV, Some(S(<<>>)), Some(S(<<110, 105, 108>>))}},
+    WithOpts |-> {St(<< <<"list", l>>, <<"text", t>>, <<"map", m>>, <<"tag", g>>, <<"bytes", y>> >>) :
+                    l \in {NoneV, Some(Seq_(<<>>)), Some(Seq_(<<I("1")>>))}, t \in {NoneV, Some(S(<<>>)), Some(S(<<110, 105, 108>>))},
+                    m \in {NoneV, Some(Map_(<<>>))}, g \in {NoneV, Some(Var("Unit", "unit", UnitV)), Some(Var("Newtype", "newtype", I("0")))}, y \in {NoneV, Some(Seq_(<<>>))}},
     OptPlain |-> {NoneV} \cup {Some(p) : p \in {x \in Plains : x.struct[2][2].str = <<>>}},
     MapStrPlain |-> {Map_(<< <<S(<<107>>), p>> >>) : p \in {x \in Plains : x.struct[2][2].str = <<>>}},
     ElixirUser |-> {St(<< <<"name", S(n)>>, <<"age", I(a)>>, <<"active", B(b)>>, <<"score", I(s)>> >>) : n \in SmallStr, a \in {"0", "-2147483648", "2147483647"}, b \in BOOLEAN,
